@@ -457,10 +457,11 @@ def rules(repo, tier):
     from ..optional import rule_optional
     from ..mode import mode_rules
     from ..callsig import rule_callsig
+    from ..docsig import rule_docsig
     from ..axisdefault import rule_axisdefault
     return list(_rules_core(repo, tier)) + [rule_memo(repo, 'C10.MEMO', 'history independence: nothing computed from the contents of a tensor argument is kept '
                                                       'under the identity, address or version of that tensor, in module-level storage, or published from a generator '
                                                       'before it is complete - a later call with the same object and other contents must not be answered from it',
                                                       ['pypose.optim.solver', 'pypose.sparse.ops'], floor=3),
-            rule_optional(repo, 'C10.OPT', ['pypose.optim.solver', 'pypose.sparse.ops'])] + mode_rules(repo, 'C10', ['pypose.optim.solver', 'pypose.sparse.ops']) + [rule_callsig(repo, 'C10.SIG', ['pypose.optim.solver', 'pypose.sparse.ops'])] + [
+            rule_optional(repo, 'C10.OPT', ['pypose.optim.solver', 'pypose.sparse.ops'])] + mode_rules(repo, 'C10', ['pypose.optim.solver', 'pypose.sparse.ops']) + [rule_callsig(repo, 'C10.SIG', ['pypose.optim.solver', 'pypose.sparse.ops']), rule_docsig(repo, 'C10.DOC', ['pypose.optim.solver', 'pypose.sparse.ops'])] + [
             rule_axisdefault(repo, 'C10.AXDEF', ['pypose.optim.solver', 'pypose.sparse.ops'])]
